@@ -200,8 +200,9 @@ pub fn history(cfg: &Cfg, rep: &mut Report, fl: Fl, h: u64, steps: usize, mode: 
                     ts.extend([*l, l.saturating_add(1), l.saturating_add(min_temp)]);
                 }
             }
-            let tl = *rng.pick(&ts);
-            if tl > cur && tl < cur + 3000 {
+            // (rarely far beyond every lifetime extension: owners, balances, operators must not lapse early)
+            let tl = if rng.chance(1, 25) { cur + 600_000 } else { *rng.pick(&ts) };
+            if tl > cur && (tl < cur + 3000 || tl == cur + 600_000) {
                 w.set_ledger(tl);
                 rep.op(format!("ledger -> {tl}"));
                 rep.count("ledger_moves");
